@@ -33,3 +33,43 @@ Example C18_example :
   Entity.wf (ESchema "CREATE" "schema" (Some ("if", "Not", "EXISTS")) "`mysch`") = true /\
   Entity.denote true (ESchema "CREATE" "schema" None "[Dev]") = PDict [("schema_name", PStr "Dev")].
 Proof. vm_compute. repeat split. Qed.
+
+(* ---------- CREATE TYPE / CREATE DOMAIN with a value list ------------------------------------------------------------------------------------
+   For EVERY statement  CREATE TYPE|DOMAIN [s.]n AS base (v, v, ...)  — keywords in any letter case, base a plain word or ENUM in
+   any letter case, each value a plain word or one quoted literal, ANY number of values, both normalize_names settings, silent or
+   not — the model returns exactly one entity of the right kind: schema and name as written, the declared base type as written,
+   and for ENUM the values in the order written (words as written, literals verbatim with their quotes); otherwise no properties.
+   (30-configuration closed invariant on the real tables + induction over the value list, Proofs/TypeDomProofs.v.) *)
+From SDP Require TypeDom TypeDomProofs TypeDomOutProofs.
+Theorem C18_type_domain_exact : forall d norm silent, TypeDom.wf norm d = true ->
+  parse_lexemes norm silent (TypeDom.lexemes d) = Ok (Some (TypeDom.denote norm d)).
+Proof. exact TypeDomProofs.typedom_parse. Qed.
+Print Assumptions C18_type_domain_exact.
+
+(* the entity is reported unchanged in every output mode; bigquery moves a written schema under the key dataset *)
+Theorem C18_type_domain_reported : forall d norm m, In m Tokens.modes ->
+  (m <> "bigquery" \/ TypeDom.d_schema d = None \/ (exists s, TypeDom.d_schema d = Some s /\ nms norm s = "")) ->
+  exists e, TypeDom.denote norm d = PDict e /\ Output.format m false [PDict e] = Ok (PList [PDict e]).
+Proof. exact TypeDomOutProofs.typedom_every_mode. Qed.
+Print Assumptions C18_type_domain_reported.
+Theorem C18_type_domain_bigquery : forall d norm s, TypeDom.d_schema d = Some s -> nms norm s <> "" ->
+  exists e, TypeDom.denote norm d = PDict e /\
+            Output.format "bigquery" false [PDict e] = Ok (PList [PDict (dict_del (dict_set e "dataset" (PStr (nms norm s))) "schema")]).
+Proof. exact TypeDomOutProofs.typedom_bigquery. Qed.
+Print Assumptions C18_type_domain_bigquery.
+Theorem C18_enum_values_in_order : forall norm d, String.eqb (upper (nms norm (TypeDom.d_base d))) "ENUM" = true ->
+  TypeDom.props norm d = PDict [("values", PList (map (TypeDom.val_value norm) (TypeDom.d_vals d)))] /\
+  List.length (map (TypeDom.val_value norm) (TypeDom.d_vals d)) = S (List.length (TypeDom.d_rest d)).
+Proof. exact TypeDomOutProofs.values_in_order. Qed.
+Print Assumptions C18_enum_values_in_order.
+
+(* non-vacuity: a lower-case enum domain (the form repaired by fix 33eb1be) and a schema-qualified type *)
+Example C18_type_domain_example :
+  TypeDom.wf false (TypeDom.mkDecl false "create" "Domain" None "d" "as" "enum" (TypeDom.VLit "'a'") [TypeDom.VWord "b"; TypeDom.VLit "'x;y'"]) = true /\
+  TypeDom.denote false (TypeDom.mkDecl false "create" "Domain" None "d" "as" "enum" (TypeDom.VLit "'a'") [TypeDom.VWord "b"; TypeDom.VLit "'x;y'"]) =
+  PDict [("schema", PNone); ("domain_name", PStr "d"); ("base_type", PStr "enum");
+         ("properties", PDict [("values", PList [PStr "'a'"; PStr "b"; PStr "'x;y'"])])] /\
+  TypeDom.wf true (TypeDom.mkDecl true "CREATE" "TYPE" (Some "[Dev]") "Status" "AS" "ENUM" (TypeDom.VLit "'on'") [TypeDom.VLit "'off'"]) = true /\
+  TypeDom.denote true (TypeDom.mkDecl true "CREATE" "TYPE" (Some "[Dev]") "Status" "AS" "ENUM" (TypeDom.VLit "'on'") [TypeDom.VLit "'off'"]) =
+  PDict [("schema", PStr "Dev"); ("type_name", PStr "Status"); ("properties", PDict [("values", PList [PStr "'on'"; PStr "'off'"])]); ("base_type", PStr "ENUM")].
+Proof. vm_compute. repeat split. Qed.
